@@ -268,6 +268,36 @@ def check_symmetrise(g, mats, m, shape, rows, labs, stratum, lat):
     for name, o in (("symmetrise", sa), ("symmetrise_unique", su)):
         if not (isinstance(o, Miller) and o.phase is m.phase and o.coordinate_format == m.coordinate_format):
             fail(f"meta:{name}", f"{name} does not keep phase / coordinate format", rep)
+    check_return_flags(m, su, mult, idx, rep)
+
+
+def check_return_flags(m, su, mult, idx, rep):
+    """the other keyword paths of symmetrise(unique=True): no flag, multiplicity only (the path used by
+    Miller.multiplicity), index only -- each must return the same vectors / multiplicities / indices as the call
+    with both flags (which is the one judged against the brute-force reference)"""
+    st("flags/symmetrise")
+
+    def same_m(o):
+        return (isinstance(o, Miller) and o.shape == su.shape and np.array_equal(o.data, su.data)
+                and o.phase is m.phase and o.coordinate_format == m.coordinate_format)
+    try:
+        u0 = m.symmetrise(unique=True)
+        t1 = m.symmetrise(unique=True, return_multiplicity=True)
+        t2 = m.symmetrise(unique=True, return_index=True)
+    except Exception as e:  # noqa
+        fail("symmetrise:flags:raises", f"symmetrise(unique=True) with one/no return flag raises {type(e).__name__}: {e}", rep)
+        return
+    if not same_m(u0):
+        fail("symmetrise:flags:unique-only", "symmetrise(unique=True) differs from the vectors of "
+                                             "symmetrise(unique=True, return_multiplicity=True, return_index=True)", rep)
+    if not (isinstance(t1, tuple) and len(t1) == 2 and same_m(t1[0])
+            and np.array_equal(np.asarray(t1[1]), np.asarray(mult))):
+        fail("symmetrise:flags:multiplicity-only", "symmetrise(unique=True, return_multiplicity=True) is not "
+             "(vectors, multiplicity) of the call with both flags", rep)
+    if not (isinstance(t2, tuple) and len(t2) == 2 and same_m(t2[0])
+            and np.array_equal(np.asarray(t2[1]), np.asarray(idx))):
+        fail("symmetrise:flags:index-only", "symmetrise(unique=True, return_index=True) is not (vectors, idx) of the "
+                                            "call with both flags", rep)
 
 
 ANGLE_ND = [((2, 3), (3,)), ((3,), (2, 3)), ((2, 1), (3,)), ((2, 1), (1, 3)), ((2, 2), (2, 2)), ((2, 3), (1,)),
@@ -407,6 +437,27 @@ def check_unique(g, mats, m, shape, rows, stratum, lat):
             break
     if not (isinstance(u, Miller) and u.phase is m.phase and u.coordinate_format == m.coordinate_format):
         fail("meta:unique", "unique(use_symmetry=True) does not keep phase / coordinate format", rep)
+    check_unique_index(m, ud, fl, rep)
+
+
+def check_unique_index(m, ud, fl, rep, sig="unique:index"):
+    """keyword path unique(use_symmetry=True, return_index=True): the same vectors as without return_index (the
+    ones judged one-per-orbit above), and idx points at them in the flattened input"""
+    st("flags/unique-index")
+    try:
+        u2, ix = m.unique(use_symmetry=True, return_index=True)
+    except Exception as e:  # noqa
+        fail(sig + ":raises", f"unique(use_symmetry=True, return_index=True) raises {type(e).__name__}: {e}", rep)
+        return
+    ix = np.asarray(ix)
+    d2 = u2.data.reshape(-1, 3)
+    if not (isinstance(u2, Miller) and d2.shape == ud.shape and np.array_equal(d2, ud) and u2.phase is m.phase
+            and u2.coordinate_format == m.coordinate_format):
+        fail(sig + ":vectors", "unique(use_symmetry=True, return_index=True)[0] differs from unique(use_symmetry=True)", rep)
+    elif not (ix.shape == (len(ud),) and ix.dtype.kind in "iu" and (len(ix) == 0 or (ix.min() >= 0 and ix.max() < len(fl)))
+              and np.all(np.abs(fl[ix] - ud) <= 1e-9)):
+        fail(sig + ":index", f"unique(use_symmetry=True, return_index=True): flatten()[idx] (idx = {ix.tolist()}) are not "
+                             f"the returned vectors {ud.tolist()}", rep)
 
 
 def gcd3(t):
@@ -556,5 +607,537 @@ if not FIXED_ONLY:
                 check_angle(g, mats, R, lat, ph)
             if t % 2 == 1 or per_group == 1:
                 check_round(g, R, lat, ph)
+
+
+# ------------------------------------------------------------ audit strata
+# Oracle-only strata (no correspondence cases) for entry points, keyword paths, input classes and histories
+# that the main loop does not reach.  They run AFTER the main loop so that the random stream of the main loop
+# (and with it the cases embedded in the Coq correspondence) is unchanged.  Each has its own signature prefix.
+FORMATS5 = ["xyz", "uvw", "hkl", "UVTW", "hkil"]
+INEXACT = ("trigonal", "hexagonal")
+
+
+def nav_flatten(arr):
+    """vectors of arr (shape + (3,)) in the order of Object3d.flatten(): FIRST navigation axis fastest"""
+    shape = arr.shape[:-1]
+    return np.array([arr[ix[::-1]] for ix in np.ndindex(*shape[::-1])], float).reshape(-1, 3)
+
+
+def rand_rows(g, r, n):
+    return [gen_vector(g, r, r.choice(["general", "axis", "mirror"])) for _ in range(n)]
+
+
+def rep_of(gname, arr, lat=None, **kw):
+    d = {"group": gname, "shape": list(arr.shape[:-1]), "xyz": np.asarray(arr, float).reshape(-1, 3).tolist()}
+    if lat is not None:
+        d["lattice"] = list(lat.abcABG())
+    d.update(kw)
+    return d
+
+
+def orbit_check(m, arr, mats, sig, rep, gname):
+    """m must hold the vectors arr (C order, shape + (3,)); symmetrise(), symmetrise(unique=True, ...), multiplicity
+    against the brute-force orbits under mats.  Inputs with an image at the 10th-decimal rounding threshold are
+    skipped (known finding, judged by the main loop).  -> True when judged"""
+    arr = np.asarray(arr, float)
+    shape = arr.shape[:-1]
+    fl = nav_flatten(arr)
+    n, G = len(fl), len(mats)
+    scale = max(1.0, float(np.max(np.abs(arr)))) if arr.size else 1.0
+    if tuple(m.shape) != tuple(shape) or (arr.size and np.max(np.abs(np.asarray(m.data, float) - arr)) > 1e-9 * scale):
+        fail(sig + ":data", f"derived/constructed object does not hold the expected vectors (shape {tuple(m.shape)}, "
+                            f"expected {tuple(shape)}; group {gname})", rep)
+        return True
+    if n and ambiguous(mats, fl):
+        st("audit/skipped-threshold")
+        return False
+    try:
+        sa = m.symmetrise()
+        su, mult, idx = m.symmetrise(unique=True, return_multiplicity=True, return_index=True)
+        mp = np.asarray(m.multiplicity)
+    except Exception as e:  # noqa
+        fail(sig + ":raises", f"symmetrise / multiplicity raises {type(e).__name__}: {e} (group {gname}, shape {shape})", rep)
+        return True
+    want_all = np.concatenate([mats @ v for v in fl]) if n else np.zeros((0, 3))
+    if sa.shape != (G * n,) or (n and np.max(np.abs(sa.data - want_all)) > 1e-9 * scale):
+        fail(sig + ":all", f"symmetrise() is not [g.v for g in G] per vector in flattened input order (group {gname}, "
+                           f"order {G}, shape {shape})", rep)
+    refs = [[] if np.all(np.abs(v) <= 1e-8) else cluster_first(list(mats @ v)) for v in fl]
+    want_mult = [len(x) for x in refs]
+    want_u = np.array([w for x in refs for w in x], float).reshape(-1, 3)
+    want_idx = [j for j, x in enumerate(refs) for _ in x]
+    if [int(x) for x in np.asarray(mult).reshape(-1)] != want_mult:
+        fail(sig + ":multiplicity", f"symmetrise(unique=True) multiplicities {np.asarray(mult).tolist()} but the vectors have "
+                                    f"{want_mult} distinct images (group {gname}, order {G}, shape {shape})", rep)
+    elif su.shape != (len(want_u),) or (len(want_u) and np.max(np.abs(su.data - want_u)) > 2e-10 * scale):
+        fail(sig + ":blocks", f"symmetrise(unique=True) vectors are not the distinct images grouped in input order "
+                              f"(group {gname}, shape {shape})", rep)
+    elif [int(x) for x in np.asarray(idx).reshape(-1)] != want_idx:
+        fail(sig + ":index", f"symmetrise(return_index=True) idx {np.asarray(idx).tolist()} != {want_idx} (group {gname})", rep)
+    if any(k and G % k for k in want_mult):
+        fail(sig + ":reference", "internal: reference multiplicity does not divide the group order (not a group?)", rep)
+    want_mp = np.zeros(shape, int)
+    for ix in np.ndindex(*shape):
+        v = arr[ix]
+        want_mp[ix] = 0 if np.all(np.abs(v) <= 1e-8) else len(cluster_first(list(mats @ v)))
+    if mp.shape != tuple(shape) or not np.array_equal(mp, want_mp):
+        fail(sig + ":multiplicity-property", f"multiplicity = {mp.tolist()} but element-wise the numbers of distinct images are "
+                                             f"{want_mp.tolist()} (group {gname}, shape {shape})", rep)
+    for o in (sa, su):
+        if not (isinstance(o, Miller) and o.phase is m.phase and o.coordinate_format == m.coordinate_format):
+            fail(sig + ":meta", "symmetrise does not keep phase / coordinate format", rep)
+            break
+    return True
+
+
+def orbit_count(mats, fl):
+    reps = []
+    for v in fl:
+        if np.all(np.abs(v) <= 1e-8):
+            continue
+        if not any(equivalent(mats, w, v) for w in reps):
+            reps.append(v)
+    return len(reps)
+
+
+def unique_check(m, arr, mats, sig, rep, gname, exact):
+    """unique(use_symmetry=True): exactly one input vector per orbit (for groups with inexact operations, where
+    keeping two of one orbit is a known finding judged by the main loop: at least one per orbit, all from the input)"""
+    arr = np.asarray(arr, float)
+    fl = nav_flatten(arr)
+    if len(fl) and ambiguous(mats, fl):
+        return
+    try:
+        u = m.unique(use_symmetry=True)
+    except Exception as e:  # noqa
+        fail(sig + ":unique-raises", f"unique(use_symmetry=True) raises {type(e).__name__}: {e} (group {gname})", rep)
+        return
+    ud = u.data.reshape(-1, 3)
+    want = orbit_count(mats, fl)
+    from_input = all(any(np.max(np.abs(w - v)) <= 1e-9 for v in fl) for w in ud)
+    cover = all(np.all(np.abs(v) <= 1e-8) or any(equivalent(mats, w, v) for w in ud) for v in fl)
+    count_ok = len(ud) == want if exact else len(ud) >= want
+    if not (from_input and cover and count_ok and u.shape == (len(ud),)):
+        fail(sig + ":unique-sym", f"unique(use_symmetry=True) returns {len(ud)} vector(s) {ud.tolist()} for an input with {want} "
+                                  f"orbit(s) (group {gname}; from input: {from_input}, every orbit kept: {cover})", rep)
+    if not (isinstance(u, Miller) and u.phase is m.phase and u.coordinate_format == m.coordinate_format):
+        fail(sig + ":unique-meta", "unique(use_symmetry=True) does not keep phase / coordinate format", rep)
+    check_unique_index(m, ud, np.asarray(m.flatten().data, float).reshape(-1, 3), rep, sig=sig + ":unique-index")
+
+
+def angle_check(a, b, A, B, mats, sig, rep, gname, degrees=False):
+    A, B = np.asarray(A, float), np.asarray(B, float)
+    try:
+        got = np.asarray(a.angle_with(b, use_symmetry=True, degrees=True) if degrees else a.angle_with(b, use_symmetry=True))
+    except Exception as e:  # noqa
+        fail(sig + ":raises", f"angle_with(use_symmetry=True) raises {type(e).__name__}: {e} (group {gname})", rep)
+        return
+    bs = np.broadcast_shapes(A.shape[:-1], B.shape[:-1])
+    Ab, Bb = np.broadcast_to(A, bs + (3,)), np.broadcast_to(B, bs + (3,))
+    ref = np.zeros(bs)
+    for ix in np.ndindex(*bs):
+        ref[ix] = min(ang(Ab[ix], w) for w in mats @ Bb[ix])
+    if degrees:
+        ref = ref * 180.0 / math.pi
+    tol = 5e-6 * (180.0 / math.pi if degrees else 1.0)
+    if got.shape != ref.shape or not np.all(np.isfinite(got)) or (ref.size and np.max(np.abs(got - ref)) > tol):
+        fail(sig, f"angle_with(use_symmetry=True{', degrees=True' if degrees else ''}) = {got.tolist()} but the minimum angle "
+                  f"over the other vector's orbit is {ref.tolist()} {'degrees' if degrees else 'rad'} (group {gname}, self "
+                  f"{A.shape[:-1]}, other {B.shape[:-1]})", rep)
+
+
+def like(m, xyz):
+    """Miller with the phase and coordinate format (hence space) of m"""
+    o = Miller(xyz=np.asarray(xyz, float), phase=m.phase)
+    o.coordinate_format = m.coordinate_format
+    return o
+
+
+def group_named(name):
+    return [x for x in GROUPS if x.name == name][0]
+
+
+# space group number -> name of its point group (only numbers whose point group has ONE setting among orix's names)
+SG_TABLE = [(2, "-1"), (14, "2/m"), (16, "222"), (25, "mm2"), (47, "mmm"), (62, "mmm"), (75, "4"), (81, "-4"), (83, "4/m"),
+            (89, "422"), (99, "4mm"), (123, "4/mmm"), (139, "4/mmm"), (143, "3"), (147, "-3"), (168, "6"), (174, "-6"),
+            (175, "6/m"), (177, "622"), (183, "6mm"), (191, "6/mmm"), (194, "6/mmm"), (195, "23"), (200, "m-3"),
+            (207, "432"), (215, "-43m"), (221, "m-3m"), (225, "m-3m"), (227, "m-3m"), (229, "m-3m")]
+AUDIT_SHAPES = [(1,), (3,), (2, 2), (1, 3), (2, 1, 2), (3, 1), (2, 1, 1, 2), (1, 1)]
+
+
+def audit_space_group(r, i):
+    """Phase given by space_group= (point group derived by the Phase.point_group property, Phase._point_group is None)"""
+    num, pg = SG_TABLE[i % len(SG_TABLE)]
+    g = group_named(pg)
+    mats = group_mats(g)
+    lat = lattice_for(g, r)
+    ph = Phase(space_group=num, structure=Structure(lattice=lat))
+    shape = AUDIT_SHAPES[i % len(AUDIT_SHAPES)]
+    n = int(np.prod(shape))
+    arr = np.array(rand_rows(g, r, n), float).reshape(tuple(shape) + (3,))
+    m = Miller(xyz=arr, phase=ph)
+    m.coordinate_format = FORMATS5[i % 3]
+    rep = rep_of(pg, arr, lat, space_group=num, entry="Phase(space_group=...)")
+    st("audit/space-group")
+    orbit_check(m, arr, mats, "space-group:symmetrise", rep, f"{pg} (space group {num})")
+    unique_check(m, arr, mats, "space-group", rep, pg, g.system not in INEXACT)
+    B = np.array(rand_rows(g, r, 1), float)
+    angle_check(m, like(m, B), arr, B, mats, "space-group:angle", dict(rep, other=B.tolist()), pg)
+
+
+UNNAMED = ["C3x", "C3y", "C4x", "C4y", "C3z", "C4z"]
+
+
+def audit_unnamed_group(r, i):
+    """Symmetry objects that are not among the 38 named groups (rotation axes along x / y)"""
+    nm = UNNAMED[i % len(UNNAMED)]
+    g = getattr(osym, nm)
+    mats = group_mats(g)
+    lat = lattice_for(g, r)
+    ph = Phase(point_group=g, structure=Structure(lattice=lat))
+    shape = AUDIT_SHAPES[(i // len(UNNAMED)) % len(AUDIT_SHAPES)]
+    n = int(np.prod(shape))
+    rows = rand_rows(g, r, n)
+    ax = {"x": [1.0, 0, 0], "y": [0, 1.0, 0], "z": [0, 0, 1.0]}[nm[-1]]
+    rows[r.randrange(n)] = [r.choice([1.0, -2.0, 0.5]) * x for x in ax]          # a vector on the group's own axis
+    arr = np.array(rows, float).reshape(tuple(shape) + (3,))
+    m = Miller(xyz=arr, phase=ph)
+    m.coordinate_format = FORMATS5[i % 3]
+    rep = rep_of(f"orix.quaternion.symmetry.{nm}", arr, lat)
+    st("audit/unnamed-group")
+    orbit_check(m, arr, mats, "unnamed-group:symmetrise", rep, nm)
+    unique_check(m, arr, mats, "unnamed-group", rep, nm, nm.startswith("C4"))
+    B = np.array(rand_rows(g, r, 1), float)
+    angle_check(m, like(m, B), arr, B, mats, "unnamed-group:angle", dict(rep, other=B.tolist()), nm)
+
+
+def audit_int_dtype(g, r, i):
+    """integer-typed input arrays (xyz / uvw / hkl), small lattice indices incl. special positions"""
+    mats = group_mats(g)
+    lat = lattice_for(g, r)
+    ph = Phase(point_group=g, structure=Structure(lattice=lat))
+    fmt = ["xyz", "uvw", "hkl"][i % 3]
+    shape = AUDIT_SHAPES[(i // 3) % len(AUDIT_SHAPES)]
+    n = int(np.prod(shape))
+    ints = np.array([[r.randint(-3, 3) for _ in range(3)] for _ in range(n)], dtype=[np.int64, np.int32][i % 2])
+    ints = ints.reshape(tuple(shape) + (3,))
+    m = Miller(**{fmt: ints, "phase": ph})
+    if fmt == "xyz":
+        arr = ints.astype(float)
+    else:
+        # the same indices given as floats define the expected Cartesian vectors
+        arr = np.asarray(Miller(**{fmt: ints.astype(float), "phase": ph}).data, float)
+    rep = rep_of(g.name, arr, lat, fmt=fmt, indices=ints.reshape(-1, 3).tolist(), dtype=str(ints.dtype))
+    st(f"audit/int-dtype/{fmt}")
+    orbit_check(m, arr, mats, "int-dtype:symmetrise", rep, g.name)
+    unique_check(m, arr, mats, "int-dtype", rep, g.name, g.system not in INEXACT)
+    keep = [k for k in range(n) if np.any(ints.reshape(-1, 3)[k] != 0)]
+    if keep:
+        sel = ints.reshape(-1, 3)[keep]
+        a = Miller(**{fmt: sel, "phase": ph})
+        b = Miller(**{fmt: sel[::-1].copy(), "phase": ph})
+        A = np.asarray(Miller(**{fmt: sel.astype(float), "phase": ph}).data, float)
+        angle_check(a, b, A, A[::-1], mats, "int-dtype:angle", rep, g.name)
+
+
+def audit_shapes(g, r, i):
+    """empty objects, size-1 axes, four axes"""
+    mats = group_mats(g)
+    lat = lattice_for(g, r)
+    ph = Phase(point_group=g, structure=Structure(lattice=lat))
+    shape = [(0,), (2, 0), (1, 1), (2, 1, 1, 2), (1, 1, 1), (0, 3), (1, 2, 1, 2), (1,)][i % 8]
+    n = int(np.prod(shape))
+    arr = np.array(rand_rows(g, r, n), float).reshape(tuple(shape) + (3,))
+    m = Miller(xyz=arr, phase=ph)
+    m.coordinate_format = FORMATS5[i % 3]
+    rep = rep_of(g.name, arr, lat)
+    kind = "empty" if n == 0 else "axes"
+    st(f"audit/shape/{kind}")
+    orbit_check(m, arr, mats, f"shape-{kind}:symmetrise", rep, g.name)
+    unique_check(m, arr, mats, f"shape-{kind}", rep, g.name, g.system not in INEXACT)
+    B = np.array(rand_rows(g, r, 1), float)
+    angle_check(m, like(m, B), arr, B, mats, f"shape-{kind}:angle", dict(rep, other=B.tolist()), g.name)
+
+
+HISTORY = ["transpose", "reshape", "getitem-reverse", "getitem-mask", "neg", "unit", "flatten", "squeeze",
+           "symmetrise-twice", "phase-replaced", "point-group-set", "format-changed"]
+
+
+def audit_history(g, r, i):
+    """the object is DERIVED (views / non-contiguous data / copies) or its phase / format is changed after a first
+    symmetrise call; then symmetrise, multiplicity, unique are judged on what the object holds now"""
+    step = HISTORY[i % len(HISTORY)]
+    lat = lattice_for(g, r)
+    ph = Phase(point_group=g, structure=Structure(lattice=lat))
+    shape = [(2, 3), (2, 2, 2), (3, 1, 2), (1, 4)][(i // len(HISTORY)) % 4]
+    n = int(np.prod(shape))
+    rows = [gen_vector(g, r, "general") for _ in range(n)]
+    # a third of the positions (at random) hold the special direction with the smallest orbit, so that the
+    # multiplicities differ between positions and any mis-ordering of the derived object's vectors shows
+    m_g = group_mats(g)
+    sp = min(special_dirs(g), key=lambda d: len(cluster_first(list(m_g @ np.array(d, float)))))
+    for j in r.sample(range(n), max(1, n // 3)):
+        rows[j] = [r.choice([1.0, 2.0, -0.5]) * x for x in sp]
+    arr = np.array(rows, float).reshape(tuple(shape) + (3,))
+    m0 = Miller(xyz=arr.copy(), phase=ph)
+    m0.coordinate_format = FORMATS5[i % 3]
+    m0.symmetrise(unique=True)            # a first call (anything cached by it must not leak into the second)
+    _ = m0.multiplicity
+    g2 = g
+    nd = len(shape)
+    if step == "transpose":
+        axes = tuple(range(nd))[::-1] if nd == 2 else ((2, 0, 1) if i % 2 else (1, 2, 0))
+        m, want = (m0.transpose() if nd == 2 else m0.transpose(*axes)), arr.transpose(*axes, nd)
+    elif step == "reshape":
+        new = (n,) if i % 2 else ((n // 2, 2) if n % 2 == 0 else (1, n))
+        m, want = m0.reshape(*new), arr.reshape(tuple(new) + (3,))
+    elif step == "getitem-reverse":
+        key = (slice(None, None, -1),) + (slice(None),) * (nd - 2) + (slice(1, None),)
+        m, want = m0[key], arr[key]
+    elif step == "getitem-mask":
+        mask = np.array([r.random() < 0.6 for _ in range(n)]).reshape(shape)
+        mask[tuple(0 for _ in shape)] = True
+        m, want = m0[mask], arr[mask]
+    elif step == "neg":
+        m, want = -m0, -arr
+    elif step == "unit":
+        m, want = m0.unit, arr / np.linalg.norm(arr, axis=-1, keepdims=True)
+    elif step == "flatten":
+        m, want = m0.flatten(), nav_flatten(arr)
+    elif step == "squeeze":
+        m, want = m0.squeeze(), np.atleast_2d(arr.squeeze())
+    elif step == "symmetrise-twice":
+        m = m0.symmetrise(unique=True)
+        want = np.asarray(m.data, float).copy()       # (the first result itself is judged by the main loop)
+    elif step == "phase-replaced":
+        g2 = GROUPS[(GROUPS.index(g) + 7 + i) % len(GROUPS)]
+        m, want = m0, arr
+        m.phase = Phase(point_group=g2, structure=Structure(lattice=lattice_for(g2, r)))
+    elif step == "point-group-set":
+        g2 = GROUPS[(GROUPS.index(g) + 11 + i) % len(GROUPS)]
+        m, want = m0, arr
+        ph.point_group = g2
+    else:
+        m, want = m0, arr
+        m.coordinate_format = FORMATS5[(i + 1) % 3]
+    mats = group_mats(g2)
+    rep = rep_of(g.name, arr, lat, step=step, group_after=g2.name)
+    st(f"audit/history/{step}")
+    if not (isinstance(m, Miller) and m.coordinate_format in FORMATS5 and m.phase is not None
+            and m.phase.point_group is not None and m.phase.point_group.name == g2.name):
+        fail(f"history:{step}:meta", f"object after '{step}' is not a Miller with the phase's point group {g2.name}", rep)
+        return
+    orbit_check(m, want, mats, f"history:{step}:symmetrise", rep, g2.name)
+    unique_check(m, want, mats, f"history:{step}", rep, g2.name, g2.system not in INEXACT)
+
+
+def same_phase(p, q):
+    return p is q or (p is not None and q is not None and p.point_group is not None and q.point_group is not None
+                      and p.point_group.name == q.point_group.name
+                      and np.allclose(p.structure.lattice.abcABG(), q.structure.lattice.abcABG()))
+
+
+def audit_meta(g, r, i):
+    """'derived objects keep the phase and coordinate format' for every public method/operator that returns a Miller,
+    with each of the five coordinate formats"""
+    lat = lattice_for(g, r)
+    ph = Phase(point_group=g, structure=Structure(lattice=lat))
+    fmt = FORMATS5[i % 5]
+    arr = np.array(rand_rows(g, r, 4), float).reshape(2, 2, 3)
+    m = Miller(xyz=arr, phase=ph)
+    m.coordinate_format = fmt
+    other = Miller(xyz=np.array(rand_rows(g, r, 4), float).reshape(2, 2, 3), phase=ph)
+    other.coordinate_format = fmt
+    cross_fmt = dict(hkl="uvw", uvw="hkl", hkil="UVTW", UVTW="hkil", xyz="xyz")[fmt]
+    derived = [
+        ("unit", lambda: m.unit, fmt), ("neg", lambda: -m, fmt), ("getitem", lambda: m[0], fmt),
+        ("getitem-mask", lambda: m[np.array([[True, False], [True, True]])], fmt),
+        ("deepcopy", lambda: m.deepcopy(), fmt), ("flatten", lambda: m.flatten(), fmt),
+        ("transpose", lambda: m.transpose(), fmt), ("reshape", lambda: m.reshape(4), fmt),
+        ("squeeze", lambda: m.reshape(1, 4).squeeze(), fmt), ("mean", lambda: m.mean(), fmt),
+        ("in_fundamental_sector", lambda: m.in_fundamental_sector(), fmt), ("cross", lambda: m.cross(other), cross_fmt),
+        ("unique", lambda: m.unique(), fmt), ("unique-index", lambda: m.unique(return_index=True)[0], fmt),
+        ("unique-sym", lambda: m.unique(use_symmetry=True), fmt),
+        ("unique-sym-index", lambda: m.unique(use_symmetry=True, return_index=True)[0], fmt),
+        ("symmetrise", lambda: m.symmetrise(), fmt), ("symmetrise-unique", lambda: m.symmetrise(unique=True), fmt),
+        ("symmetrise-mult", lambda: m.symmetrise(unique=True, return_multiplicity=True)[0], fmt),
+        ("symmetrise-index", lambda: m.symmetrise(unique=True, return_index=True)[0], fmt),
+        ("rotation-mul", lambda: g[g.size - 1] * m, fmt), ("rotation-outer", lambda: g.outer(m), fmt),
+    ]
+    if i % 4 == 0:      # (dask start-up makes this one slow: every fourth case; 4 and the 5 formats are coprime)
+        derived.append(("rotation-outer-lazy", lambda: g.outer(m, lazy=True, progressbar=False), fmt))
+    rep = rep_of(g.name, arr, lat, fmt=fmt)
+    st(f"audit/meta/{fmt}")
+    for name, f, want_fmt in derived:
+        try:
+            o = f()
+        except Exception as e:  # noqa
+            fail(f"meta:{name}:raises", f"{name} raises {type(e).__name__}: {e} (group {g.name}, format {fmt})", rep)
+            continue
+        if not (isinstance(o, Miller) and same_phase(o.phase, ph) and o.coordinate_format == want_fmt):
+            fail(f"meta:{name}", f"{name} of a Miller with format {fmt} returns {type(o).__name__} with format "
+                                 f"{getattr(o, 'coordinate_format', None)} / phase kept: "
+                                 f"{same_phase(getattr(o, 'phase', None), ph)} (expected format {want_fmt}; group {g.name})", rep)
+    if m.coordinate_format != fmt or m.phase is not ph or not np.array_equal(m.data, arr):
+        fail("meta:input-changed", "a derived-object method changed its input's data, phase or coordinate format", rep)
+
+
+ANGLE_FMT_PAIRS = [("uvw", "UVTW"), ("xyz", "uvw"), ("UVTW", "xyz"), ("hkl", "hkil"), ("uvw", "xyz"), ("hkil", "hkl"),
+                   ("xyz", "UVTW"), ("UVTW", "uvw")]
+ANGLE_SHAPE_PAIRS = [((3,), (1,)), ((2,), (2,)), ((2, 2), (2,)), ((1,), (3,)), ((2, 1), (1, 2))]
+
+
+def audit_angle_variants(g, r, i):
+    """angle_with(use_symmetry=True): degrees=True, and the two operands with DIFFERENT coordinate formats of the same
+    space and (every second case) an equal but not identical Phase object"""
+    import copy
+    mats = group_mats(g)
+    lat = lattice_for(g, r)
+    ph = Phase(point_group=g, structure=Structure(lattice=lat))
+    fa, fb = ANGLE_FMT_PAIRS[i % len(ANGLE_FMT_PAIRS)]
+    sa, sb = ANGLE_SHAPE_PAIRS[(i // 2) % len(ANGLE_SHAPE_PAIRS)]
+    degrees = (i // len(ANGLE_FMT_PAIRS)) % 2 == 0
+    A = np.array(rand_rows(g, r, int(np.prod(sa))), float).reshape(tuple(sa) + (3,))
+    B = np.array(rand_rows(g, r, int(np.prod(sb))), float).reshape(tuple(sb) + (3,))
+    a = Miller(xyz=A, phase=ph)
+    a.coordinate_format = fa
+    b = Miller(xyz=B, phase=copy.deepcopy(ph) if i % 2 else ph)
+    b.coordinate_format = fb
+    rep = {"group": g.name, "self": A.reshape(-1, 3).tolist(), "other": B.reshape(-1, 3).tolist(), "self_shape": list(sa),
+           "other_shape": list(sb), "self_fmt": fa, "other_fmt": fb, "degrees": degrees, "other_phase_is_copy": bool(i % 2),
+           "lattice": list(lat.abcABG())}
+    st(f"audit/angle/{'degrees' if degrees else 'radians'}")
+    st(f"audit/angle/fmt/{fa}-{fb}")
+    angle_check(a, b, A, B, mats, "angle:degrees" if degrees else "angle:formats", rep, g.name, degrees=degrees)
+
+
+ROUND_SHAPES = [(2, 2), (1, 3), (2, 1, 2), (3, 1), (1, 1), (2, 3)]
+ROUND_FMTS = ["uvw", "hkl", "UVTW", "hkil"]
+
+
+def audit_round(g, r, i):
+    """round(): index arrays with two or more axes, the default max_index (20; _round_indices alone defaults to 12),
+    negative scale factors, integer-typed indices"""
+    lat = lattice_for(g, r)
+    ph = Phase(point_group=g, structure=Structure(lattice=lat))
+    fmt = ROUND_FMTS[i % 4]
+    mode = ["nd", "default-max-index", "negative-scale", "int-dtype"][(i // 4) % 4]
+    shape = ROUND_SHAPES[i % len(ROUND_SHAPES)] if mode != "default-max-index" else [(2,), (1, 2)][i % 2]
+    n = int(np.prod(shape))
+    prim, idxs = [], []
+    for _ in range(n):
+        while True:
+            t = [r.randint(-9, 9) for _ in range(3)]
+            if mode == "default-max-index":
+                t[r.randrange(3)] = r.choice([13, 17, 19, 20, -14, -20, 16, -18])
+            gg = gcd3(t) if any(t) else 0
+            if gg and (mode != "default-max-index" or max(abs(x) // gg for x in t) > 12):
+                break          # default-max-index: the coprime indices need a multiplier in 13..20
+        p = [x // gg for x in t]
+        if mode == "negative-scale":
+            s = r.choice([-1.0, -2.0, -0.5, -1.5, -r.uniform(0.1, 7)])
+        elif mode == "int-dtype":
+            s = r.choice([1, 2, 3, -2])
+        else:
+            s = r.choice([1.0, 2.0, 3.0, 0.5, 1.5, r.uniform(0.1, 7)])
+        sgn = -1 if s < 0 else 1
+        if fmt in ("UVTW", "hkil"):
+            p = [p[0], p[1], -(p[0] + p[1]), p[2]]
+        prim.append([sgn * x for x in p])
+        idxs.append([s * x for x in p])
+    k = len(prim[0])
+    ia = np.array(idxs, dtype=int if mode == "int-dtype" else float).reshape(tuple(shape) + (k,))
+    want = np.array(prim, float).reshape(tuple(shape) + (k,))
+    m = Miller(**{fmt: ia, "phase": ph})
+    rep = {"group": g.name, "fmt": fmt, "indices": ia.reshape(-1, k).tolist(), "shape": list(shape), "mode": mode,
+           "lattice": list(lat.abcABG()), "expected": want.reshape(-1, k).tolist()}
+    st(f"audit/round/{mode}")
+    try:
+        out = m.round() if mode == "default-max-index" else m.round(max_index=[12, 20, 30][i % 3])
+    except Exception as e:  # noqa
+        fail(f"round:{mode}:raises", f"round raises {type(e).__name__}: {e}", rep)
+        return
+    got = np.asarray(out.coordinates)
+    if not (isinstance(out, Miller) and out.phase is m.phase and out.coordinate_format == fmt):
+        fail(f"round:{mode}:meta", "round() does not keep phase / coordinate format", rep)
+    if got.shape != want.shape or np.max(np.abs(got - want)) > 1e-6:
+        fail(f"round:{mode}", f"round() [{mode}] of {fmt} indices {ia.tolist()} = {got.tolist()}, expected the parallel coprime "
+                              f"indices {want.tolist()} in the same array shape", rep)
+
+
+def audit_neardup(g, r, i):
+    """near-duplicates: two vectors 3e-12 apart (far from a rounding boundary of the 10th decimal) are ONE vector
+    for unique()/unique(use_symmetry); two vectors 3e-6 .. 1e-4 apart are two vectors with two orbits and are kept
+    apart by symmetrise(unique=True), unique() and unique(use_symmetry=True)"""
+    mats = group_mats(g)
+    G = len(mats)
+    lat = lattice_for(g, r)
+    ph = Phase(point_group=g, structure=Structure(lattice=lat))
+    on_axis = i % 3 == 2
+    for _ in range(200):
+        if on_axis:
+            d = r.choice(special_dirs(g))
+            v = np.array(d, float) * round(r.uniform(0.6, 2.5), 3)
+        else:
+            v = np.array([round(r.uniform(-2, 2), 3) for _ in range(3)])
+        if np.max(np.abs(v)) < 0.3:
+            continue
+        if on_axis or len(cluster_first(list(mats @ v), tol=1e-3)) == G:
+            break
+    merged = i % 2 == 0 and not on_axis
+    if merged:
+        delta = 3e-12
+        w = v.copy()
+        w[r.randrange(3)] += delta
+    else:
+        delta = [3e-6, 1e-4, 1e-5][(i // 2) % 3]
+        w = v * (1 + delta / np.max(np.abs(v))) if on_axis else v + delta * np.eye(3)[r.randrange(3)]
+    order = [v, w] if (i // 2) % 2 == 0 else [w, v]
+    extra = np.array(rand_rows(g, r, 1), float)[0]
+    arr = np.array(order + [extra], float)
+    m = Miller(xyz=arr, phase=ph)
+    rep = rep_of(g.name, arr, lat, delta=delta, kind="merged" if merged else "distinct", on_axis=on_axis)
+    st(f"audit/neardup/{'merged' if merged else 'distinct'}")
+    if ambiguous(mats, arr):
+        st("audit/skipped-threshold")
+        return
+    pair = Miller(xyz=np.array(order, float), phase=ph)
+    n_plain = pair.unique().size
+    n_sym = pair.unique(use_symmetry=True).size
+    want = 1 if merged else 2
+    exact = g.system not in INEXACT
+    if n_plain != want:
+        fail(f"neardup:{'merged' if merged else 'distinct'}:unique", f"unique() of two vectors {delta:g} apart returns {n_plain} "
+             f"vector(s), expected {want} (group {g.name})", rep)
+    if n_sym != want:
+        fail(f"neardup:{'merged' if merged else 'distinct'}:unique-sym", f"unique(use_symmetry=True) of two vectors {delta:g} "
+             f"apart returns {n_sym} vector(s), expected {want} (group {g.name})", rep)
+    if not merged:
+        # well-separated near-duplicates: each has its own block of distinct images
+        su, mult, idx = pair.symmetrise(unique=True, return_multiplicity=True, return_index=True)
+        wm = [len(cluster_first(list(mats @ x))) for x in order]
+        if [int(x) for x in mult] != wm or su.size != sum(wm) or [int(x) for x in idx] != [0] * wm[0] + [1] * wm[1]:
+            fail("neardup:distinct:symmetrise", f"symmetrise(unique=True) of two vectors {delta:g} apart: multiplicities "
+                 f"{np.asarray(mult).tolist()}, expected {wm} (group {g.name})", rep)
+        # the orbit of the pair's second vector must not be lost among three vectors either
+        unique_check(m, arr, mats, "neardup:distinct", rep, g.name, exact)
+
+
+AUDITS = [audit_int_dtype, audit_shapes, audit_history, audit_meta, audit_angle_variants, audit_round, audit_neardup]
+if not FIXED_ONLY:
+    reps = max(1, N // 380)
+    k_sg = k_un = 0
+    for rnd in range(reps):
+        for gi, g in enumerate(GROUPS):
+            i = rnd * len(GROUPS) + gi
+            # every audit for every group; the index i cycles each audit's own parameter combinations, offset per
+            # audit so that the combinations are not tied to particular groups in the same way
+            for ai, f in enumerate(AUDITS):
+                f(g, R, i + ai * 5 + rnd)
+            audit_history(g, R, i + 17 + rnd)          # a second, different history step for the same group
+            audit_space_group(R, k_sg)
+            k_sg += 1
+            audit_unnamed_group(R, k_un)
+            k_un += 1
 
 emit({"cases": cases, "fails": fails, "strata": strata, "witness": witness})
